@@ -100,8 +100,7 @@ impl AbstractInstructionSet {
     ) -> AbstractInstructionSet {
         let mut new_ops = Vec::with_capacity(self.ops.len());
 
-        let mut ops = self.ops.iter().peekable();
-        while let Some(op) = ops.next() {
+        for (idx, op) in self.ops.iter().enumerate() {
             let remove = match &op.opcode {
                 Either::Left(VirtualOp::NOOP) => true,
                 Either::Left(VirtualOp::MOVE(a, b)) => a == b,
@@ -112,17 +111,27 @@ impl AbstractInstructionSet {
                 _ => false,
             };
 
-            // We also need to be sure op is redundant regarding const registers.
-            let remove = remove
-                && ops
-                    .peek()
-                    .map(|next_op| {
-                        op.def_const_registers()
-                            .intersection(&next_op.use_registers())
-                            .count()
-                            == 0
-                    })
-                    .unwrap_or(true);
+            // We also need to be sure op is redundant regarding const registers: the ones it
+            // defines must not be read before a later instruction of the block defines them again.
+            let remove = remove && {
+                let mut defs = op.def_const_registers();
+                let mut redundant = true;
+                for later_op in &self.ops[idx + 1..] {
+                    if defs.is_empty() {
+                        break;
+                    }
+                    if defs.intersection(&later_op.use_registers()).count() != 0 {
+                        redundant = false;
+                        break;
+                    }
+                    if later_op.opcode.is_right() {
+                        break;
+                    }
+                    let later_defs = later_op.def_const_registers();
+                    defs.retain(|reg| !later_defs.contains(reg));
+                }
+                redundant
+            };
 
             if !remove {
                 log(&format!("keeping: {}\n", op));
